@@ -59,6 +59,8 @@ MUTANTS = [
   "  ldb_edit_set_next_file(edit, vset->next_file_number > 3 ? vset->next_file_number - 2 : vset->next_file_number);\n  ldb_edit_set_last_sequence(edit, vset->last_sequence);\n\n  v = ldb_version_create(vset);"),
  ("recovery_marks_logs_late", "C13", "src/db_impl.c",
   "  for (i = 0; i < (int)logs.length; i++)\n    ldb_versions_mark_file_number(db->versions, logs.items[i]);\n\n", ""),
+ ("compaction_reads_without_checksums", "C11", "src/version_set.c",
+  "  options.verify_checksums = vset->options->paranoid_checks;", "  options.verify_checksums = 0;"),
  ("flush_inside_compaction_pushed_down", "C14", "src/db_impl.c",
   "  if (!in_compaction) {\n    base = db->versions->current;", "  if (in_compaction || !in_compaction) {\n    base = db->versions->current;"),
  ("get_ignores_immutable_memtable", "C08", "src/db_impl.c",
